@@ -83,7 +83,7 @@ def refusal_is_documented(cfg, exc, ds_complete, one):
     from corankco.algorithms.exact.exactalgorithmbase import IncompatibleArgumentsException
     if isinstance(exc, IncompatibleArgumentsException):
         # documented for the CPLEX model with its optimisations on (also when reached through the selector)
-        return cfg in ("Cplex", "Exact") and not one
+        return cfg in ("Cplex", "Exact", "enum:EXACT") and not one
     if isinstance(exc, libx.DOCUMENTED_REFUSALS):
         return not ds_complete
     return False
